@@ -436,6 +436,11 @@ class Tables:
             for (label, fn, selfk) in self.ROOT_PATHS:
                 key = self._seed_key(fn)
                 for ph, flag in itertools.product(PH, (0, 1)):
+                    # a MarkedArena exists only for a fully marked arena (the protocol rows of mark_debt /
+                    # finish_marking establish exactly that) and keeps it exclusively borrowed until it is consumed:
+                    # its methods are entered in (Mark, root traced, nothing gray) and in no other state
+                    if selfk == "marked" and (ph, flag) != ("Mark", 0):
+                        continue
                     pre = {"path": label, "phase": ph, "flag": flag}
                     if key is None:
                         r = Row("root_paths", pre, [], err="anchor %s not found" % fn)
